@@ -14,6 +14,11 @@
 //   the correspondence run again and the answers are compared bitwise with a fresh object configured identically;
 //   attenuation images with NON-SQUARE in-plane voxels (sections A/B and J): uniform boxes / cylinders with analytically
 //   known chord lengths, image-object / filename constructors and the parsed route, with and without a projector given.
+//   ONE OBJECT THROUGH CONSTRUCTORS, parse() AND set_up (section K): BinNormalisationFromProjData, BinNormalisationFromAttenuationImage and
+//   ChainedBinNormalisation objects are parsed (text A) -> set up -> used -> parsed again (text B: other factor file / other image and
+//   projector / other members) -> set up -> used, and constructed (file name, object) and then parsed; after every set_up all
+//   oracles and the correspondence run and the answers are compared bitwise with a FRESH object parsed once with the same text;
+//   TOF DATA MASHED TO ANY NUMBER OF TOF BINS, down to ONE (section C/E): non-TOF and TOF factors, set_up decisions.
 // Usage: c13_binnorm <seed> <quick|thorough> <opsfile> <implfile>
 // ops/impl: the line protocol answered by lean/Driver/C13.lean;  <implfile>.oracle: the property's own statement
 // evaluated on the implementation (all bins).
@@ -241,6 +246,40 @@ send_table(const std::string& name, const PD& d)
     }
 }
 
+// ---------------------------------------------------------------- comparisons of BinNormalisationFromProjData::set_up
+// the five comparisons between the geometry of the factors and a data geometry (the ProjDataInfo comparisons themselves are
+// C01/C02's business: data for the model)
+static std::string
+geom_cmp(const ProjDataInfo& np, const ProjDataInfo& proj)
+{
+  bool axeq = true;
+  for (int s = proj.get_min_segment_num(); s <= proj.get_max_segment_num(); ++s)
+    {
+      if (s < np.get_min_segment_num() || s > np.get_max_segment_num())
+        {
+          axeq = false;
+          break;
+        }
+      axeq = axeq && np.get_min_axial_pos_num(s) == proj.get_min_axial_pos_num(s)
+             && np.get_max_axial_pos_num(s) == proj.get_max_axial_pos_num(s);
+    }
+  std::ostringstream o;
+  o << (np == proj ? 1 : 0) << " " << (np >= proj ? 1 : 0) << " " << (np.get_min_tangential_pos_num() == proj.get_min_tangential_pos_num() ? 1 : 0)
+    << " " << (np.get_max_tangential_pos_num() == proj.get_max_tangential_pos_num() ? 1 : 0) << " " << (axeq ? 1 : 0);
+  return o.str();
+}
+
+// "<TOF mashing factor of the factors> <of the data> <comparisons with the data geometry as it is> <with its non-TOF clone>":
+// WHICH of the two set_up looks at is decided by the model (fromProjDataSetUpTof), not here
+static std::string
+fpd_setup_flags(const ProjDataInfo& np, const ProjDataInfo& data)
+{
+  shared_ptr<ProjDataInfo> clone(data.create_non_tof_clone());
+  std::ostringstream o;
+  o << np.get_tof_mash_factor() << " " << data.get_tof_mash_factor() << " " << geom_cmp(np, data) << " " << geom_cmp(np, *clone);
+  return o.str();
+}
+
 // ---------------------------------------------------------------- routes (how apply/undo is called)
 
 struct Route
@@ -340,6 +379,9 @@ struct Case
   bool is_components = false;
   bool is_chain = false;
   std::vector<float> hand_eff;         // for components built by hand: the expected efficiency per bin
+  // a class of inputs for which a failure of the attenuation-factor oracle / the comparison with a fresh object is reported as a
+  // KNOWN-CANDIDATE with this key (empty: ORACLE-FAIL)
+  std::string known_key, known_text;
   // measured
   std::vector<std::vector<float>> F;   // per route: efficiency factor measured from undo
 };
@@ -541,9 +583,11 @@ struct Runner
   }
 
   // factors_pdi: geometry of the stored factors; `f_reuse` / `norm_reuse`: an existing factor data set (values as they are
-  // now) held by an existing object
+  // now) held by an existing object.  `hist_id`: the object has a history of constructor / parse / set_up calls that the model
+  // follows under this name (FpdObj): the model already knows the factors (it was told at the constructor / the parse); it is told
+  // here that set_up is called now, with the comparisons of the geometry of the factors with that of the data.
   int add_from_proj_data(const shared_ptr<ProjDataInfo>& factors_pdi, const std::string& label, shared_ptr<PD> f_reuse = shared_ptr<PD>(),
-                         shared_ptr<BinNormalisation> norm_reuse = shared_ptr<BinNormalisation>())
+                         shared_ptr<BinNormalisation> norm_reuse = shared_ptr<BinNormalisation>(), const std::string& hist_id = "")
   {
     Case c;
     c.kind = "fpd:" + label;
@@ -562,8 +606,25 @@ struct Runner
           c.stored_factor.push_back(bin_value(*f, b));
         }
     const int k = add(c);
+    if (!hist_id.empty())
+      {
+        op("hist " + hist_id + " setup fpd " + fpd_setup_flags(*factors_pdi, *g.pdi), "ok");
+        cases[k].id = hist_id;
+        return k;
+      }
     send_table("t" + cases[k].id, *f);
     op("norm " + cases[k].id + " fpd t" + cases[k].id + " " + (norm_tof ? "1" : "0"), "ok");
+    // is_TOF_only_norm(): the factors have more than one TOF position
+    {
+      std::string ans = "err";
+      try
+        {
+          ans = cases[k].norm->is_TOF_only_norm() ? "1" : "0";
+        }
+      catch (...)
+        {}
+      op("tofonly fpd " + std::to_string(factors_pdi->get_num_tof_poss()), ans);
+    }
     return k;
   }
 
@@ -650,25 +711,22 @@ struct Runner
     return a;
   }
 
-  // the case for an attenuation object (new, or one that was set up before) and the data geometry at hand
-  int add_atten_case(const AttenObj& a)
+  // the matrix rows of every bin for the image `mu` (ray tracing matrix with the given settings, a matrix object of our own, cache
+  // off: that rows do not depend on the symmetry settings is property C03, not this one) paired with the voxel values, sent to the
+  // model as the row table `name`; `acf` (optional): exp(line integral), summed here, not by a projector
+  void send_rows(const std::string& name, const shared_ptr<VoxelsOnCartesianGrid<float>>& mu, int f, bool swap_s, bool shift_z,
+                 std::vector<float>* acf)
   {
-    Case c;
-    c.kind = (a.default_projector ? std::string("attenDefaultProjector") : "atten" + std::to_string(a.f)) + a.label;
-    c.norm = a.norm;
-    shared_ptr<VoxelsOnCartesianGrid<float>> mu = a.mu;
-    shared_ptr<ForwardProjectorByBin> fwd = a.fwd;
-    // (the class must be set up before the projector's symmetries exist: routes are filled in by run_case)
-    // explicit rows: a second matrix object with the same settings (that rows do not depend on the symmetry settings is
-    // property C03, not this one), cache off; the line integrals are summed here, not by a projector
-    shared_ptr<ProjMatrixByBinUsingRayTracing> pm0 = make_matrix(a.f, a.swap_s, a.shift_z);
+    shared_ptr<ProjMatrixByBinUsingRayTracing> pm0 = make_matrix(f, swap_s, shift_z);
     pm0->enable_cache(false);
     pm0->set_up(g.pdi, mu);
     // the matrix elements are lengths in units of the X voxel size
     const float vx = mu->get_voxel_size().x();
-    const int k = add(c);
-    Case& cc = cases[k];
-    cc.acf.reserve(g.nbins());
+    if (acf)
+      {
+        acf->clear();
+        acf->reserve(g.nbins());
+      }
     ProjMatrixElemsForOneBin row;
     for (const Row& r : g.rows)
       for (int t = g.tmin; t <= g.tmax; ++t)
@@ -676,7 +734,7 @@ struct Runner
           Bin b(r.seg, r.view, r.ax, t, r.tof);
           pm0->get_proj_matrix_elems_for_one_bin(row, b);
           std::ostringstream s;
-          s << "row r" << cc.id << " " << r.seg << " " << r.view << " " << r.ax << " " << t;
+          s << "row " << name << " " << r.seg << " " << r.view << " " << r.ax << " " << t;
           double integral = 0;
           for (auto e = row.begin(); e != row.end(); ++e)
             {
@@ -689,8 +747,24 @@ struct Runner
               integral += static_cast<double>(e->get_value()) * vx * (static_cast<double>(m) / 10.);
             }
           op(s.str(), "ok");
-          cc.acf.push_back(static_cast<float>(std::exp(integral)));
+          if (acf)
+            acf->push_back(static_cast<float>(std::exp(integral)));
         }
+  }
+
+  // the case for an attenuation object (new, or one that was set up before) and the data geometry at hand
+  int add_atten_case(const AttenObj& a)
+  {
+    Case c;
+    c.kind = (a.default_projector ? std::string("attenDefaultProjector") : "atten" + std::to_string(a.f)) + a.label;
+    c.norm = a.norm;
+    shared_ptr<VoxelsOnCartesianGrid<float>> mu = a.mu;
+    shared_ptr<ForwardProjectorByBin> fwd = a.fwd;
+    // (the class must be set up before the projector's symmetries exist: routes are filled in by run_case)
+    const float vx = mu->get_voxel_size().x();
+    const int k = add(c);
+    Case& cc = cases[k];
+    send_rows("r" + cc.id, mu, a.f, a.swap_s, a.shift_z, &cc.acf);
     op("norm " + cc.id + " atten " + vh::hex(vx) + " r" + cc.id, "ok");
     if (a.default_projector)
       {
@@ -1454,7 +1528,13 @@ struct Runner
         verdict(bad_app, "apply does not divide by the factor undo multiplies with");
         verdict(bad_au, "apply(undo(data)) != data where the efficiency is >= 1e-20");
         verdict(bad_ua, "undo(apply(data)) != data where the efficiency is >= 1e-20");
-        verdict(bad_acf, "attenuation correction factor is not exp(line integral of mu/10 over the LOR in mm)");
+        if (bad_acf >= 0 && !c.known_key.empty())
+          {
+            ++g_checks;
+            known_candidate(c.known_key, c.known_text);
+          }
+        else
+          verdict(bad_acf, "attenuation correction factor is not exp(line integral of mu/10 over the LOR in mm)");
         verdict(bad_fpd, "BinNormalisationFromProjData::apply does not multiply by the stored factor");
         verdict(bad_chain, "chain efficiency is not the product of its members' efficiencies");
         if (!c.hand_eff.empty())
@@ -1514,6 +1594,13 @@ struct Runner
         return;
       }
     auto same_bits = [](float a, float b) { return std::memcmp(&a, &b, sizeof(float)) == 0; };
+    // a difference between the two objects (for a class of histories with a known finding: KNOWN-CANDIDATE)
+    auto differs = [&](const std::string& text) {
+      if (!c.known_key.empty())
+        known_candidate(c.known_key, c.known_text);
+      else
+        oracle_fail(text);
+    };
     auto triv_of = [](const BinNormalisation& n) {
       try
         {
@@ -1563,7 +1650,7 @@ struct Runner
           }
       ++g_checks;
       if (bad >= 0)
-        oracle_fail("history: get_bin_efficiency of the object set up again (" + fmt(v1) + ") differs from that of a fresh object configured identically ("
+        differs("history: get_bin_efficiency of the object set up again (" + fmt(v1) + ") differs from that of a fresh object configured identically ("
                     + fmt(v2) + ") at " + bin_name(g, bad) + ": " + where);
     }
     for (int which = 0; which < 2; ++which)
@@ -1588,7 +1675,7 @@ struct Runner
               if (!same_bits(a[i], b[i]))
                 bad = static_cast<int>(i);
             if (bad >= 0)
-              oracle_fail(std::string("history: ") + (do_apply ? "apply" : "undo") + " of the object set up again gives " + fmt(a[bad])
+              differs(std::string("history: ") + (do_apply ? "apply" : "undo") + " of the object set up again gives " + fmt(a[bad])
                           + ", a fresh object configured identically " + fmt(b[bad]) + " for d=" + vh::hex(d1[bad]) + " at " + bin_name(g, bad) + " route "
                           + r.name + ": " + where);
           }
@@ -1999,31 +2086,15 @@ fpd_setup_case(Runner& R, const shared_ptr<ProjDataInfo>& factors_pdi, bool expe
     {
       ok = false;
     }
-  // the ProjDataInfo comparisons are data for the model (they are C01/C02's business)
-  shared_ptr<const ProjDataInfo> proj = R.g.pdi;
-  if (!factors_pdi->is_tof_data() && proj->is_tof_data())
-    proj = proj->create_non_tof_clone();
-  const ProjDataInfo& np = *factors_pdi;
-  bool axeq = true;
-  for (int s = proj->get_min_segment_num(); s <= proj->get_max_segment_num(); ++s)
-    {
-      if (s < np.get_min_segment_num() || s > np.get_max_segment_num())
-        {
-          axeq = false;
-          break;
-        }
-      axeq = axeq && np.get_min_axial_pos_num(s) == proj->get_min_axial_pos_num(s)
-             && np.get_max_axial_pos_num(s) == proj->get_max_axial_pos_num(s);
-    }
-  std::ostringstream o;
-  o << "setup fpd " << (np == *proj ? 1 : 0) << " " << (np >= *proj ? 1 : 0) << " "
-    << (np.get_min_tangential_pos_num() == proj->get_min_tangential_pos_num() ? 1 : 0) << " "
-    << (np.get_max_tangential_pos_num() == proj->get_max_tangential_pos_num() ? 1 : 0) << " " << (axeq ? 1 : 0);
-  op(o.str(), ok ? "ok" : "fail");
+  // the ProjDataInfo comparisons are data for the model (they are C01/C02's business); which geometry set_up compares the
+  // factors with (the data geometry or its non-TOF clone) is the model's decision
+  op("setup fpdtof " + fpd_setup_flags(*factors_pdi, *R.g.pdi), ok ? "ok" : "fail");
   ++g_checks;
   if (expect_known && ok != expected)
     oracle_fail(std::string("BinNormalisationFromProjData::set_up ") + (ok ? "accepted" : "rejected") + " a factor geometry that must be "
-                + (expected ? "accepted" : "rejected"));
+                + (expected ? "accepted" : "rejected") + ": factors with TOF mashing factor " + std::to_string(factors_pdi->get_tof_mash_factor())
+                + " (" + std::to_string(factors_pdi->get_num_tof_poss()) + " TOF positions), " + std::to_string(factors_pdi->get_num_segments())
+                + " segments, " + std::to_string(factors_pdi->get_num_tangential_poss()) + " tangential positions");
 }
 
 
@@ -2098,11 +2169,73 @@ atten_setup_case(Runner& R)
     {
       ok = false;
     }
-  op("setup atten " + std::to_string(R.g.pdi->get_num_tof_poss()), ok ? "ok" : "err");
+  // (number of TOF positions, TOF mashing factor: which of the two set_up looks at is the model's business)
+  op("setup atten " + std::to_string(R.g.pdi->get_num_tof_poss()) + " " + std::to_string(R.g.pdi->get_tof_mash_factor()), ok ? "ok" : "err");
   if (ok && R.g.pdi->get_num_tof_poss() > 1)
     accepted_must_satisfy_property(
         R, n, shared_ptr<DataSymmetriesForViewSegmentNumbers>(new DataSymmetriesForBins_PET_CartesianGrid(R.g.pdi, mu)),
         "BinNormalisationFromAttenuationImage on TOF data");
+  if (ok && R.g.pdi->is_tof_data() && R.g.pdi->get_num_tof_poss() == 1)
+    {
+      // TOF data with ONE TOF bin pass the test `get_num_tof_poss() > 1` of set_up.  Accepted data must satisfy the property: the
+      // factors are the exponentials of the line integrals, i.e. those the same object gives for the same data without TOF.
+      static const char* const key = "atten:tof-data-with-one-tof-bin:accepted-by-set_up-but-factors-are-not-exp-of-line-integrals";
+      static const char* const text
+          = "BinNormalisationFromAttenuationImage::set_up refuses TOF data by testing get_num_tof_poss() > 1, so TOF data mashed to ONE TOF "
+            "bin (is_tof_data() true, e.g. 5 TOF bins mashed by 5) are accepted; apply/undo then forward project with the TOF kernel of "
+            "that bin (matrix projector: log ACF 0.129 instead of 0.152 for a 7x7 image of 0.1 cm^-1, 16 detectors) or, with the default "
+            "projector ForwardProjectorByBinUsingRayTracing, call error('error in symmetries') or read outside the image (SIGSEGV), "
+            "instead of giving the factors of the non-TOF geometry";
+      shared_ptr<ProjDataInfo> nontof(R.g.pdi->create_non_tof_clone());
+      // (only with a matrix projector: with the class's default projector, ForwardProjectorByBinUsingRayTracing, the same call
+      //  ends in error("error in symmetries") or in a read outside the image in proj_Siddon - SIGSEGV, 12 detectors, 3 rings -
+      //  which cannot be run inside this process)
+      for (int with_matrix = 1; with_matrix < 2; ++with_matrix)
+        {
+          ++g_checks;
+          bool fine = true;
+          std::vector<float> got, ref;
+          try
+            {
+              const int f = R.rng.range(0, 7);
+              shared_ptr<ForwardProjectorByBin> fwd1, fwd2;
+              if (with_matrix)
+                {
+                  fwd1.reset(new ForwardProjectorByBinUsingProjMatrixByBin(Runner::make_matrix(f, true, true)));
+                  fwd2.reset(new ForwardProjectorByBinUsingProjMatrixByBin(Runner::make_matrix(f, true, true)));
+                }
+              BinNormalisationFromAttenuationImage a(mu_c, fwd1), b(mu_c, fwd2);
+              if (a.set_up(R.g.exam, R.g.pdi) != Succeeded::yes || b.set_up(R.g.exam, nontof) != Succeeded::yes)
+                throw std::runtime_error("set_up");
+              shared_ptr<DataSymmetriesForViewSegmentNumbers> s1, s2;
+              if (with_matrix)
+                {
+                  s1.reset(fwd1->get_symmetries_used()->clone());
+                  s2.reset(fwd2->get_symmetries_used()->clone());
+                }
+              else
+                {
+                  s1.reset(new DataSymmetriesForBins_PET_CartesianGrid(R.g.pdi, mu));
+                  s2.reset(new DataSymmetriesForBins_PET_CartesianGrid(nontof, mu));
+                }
+              PD d1(R.g.exam, R.g.pdi), d2(R.g.exam, nontof);
+              d1.fill(1.F);
+              d2.fill(1.F);
+              a.apply(d1, s1);
+              b.apply(d2, s2);
+              got = flatten_pd(d1);
+              ref = flatten_pd(d2);
+            }
+          catch (...)
+            {
+              fine = false;
+            }
+          for (std::size_t i = 0; fine && i < got.size(); ++i)
+            fine = close_rel(got[i], ref[i], 2e-4);
+          if (!fine)
+            known_candidate(key, text);
+        }
+    }
 }
 
 // ... and the components class on TOF data, data with view mashing, data with axial compression
@@ -2518,6 +2651,621 @@ atten_analytic(vh::Rng& rng, bool thorough, int round)
     }
 }
 
+// ================================================================== K: one object through constructors, parse() and set_up
+// ParsingObject::parse does not call set_defaults: whatever the object held before stays unless a key of the text or
+// post_processing replaces it.  For every normalisation class with parsing keys that needs no scanner files:
+//   (constructor | parse text A) -> set_up -> use -> parse text B -> set_up -> use ...
+// Every key that text A gives is also given by text B (with another value), so that the two texts describe complete
+// configurations.  After EVERY set_up: run_case (all oracles - the expectation comes from the data the harness wrote into the
+// files, not from the object - and all correspondence lines: the model follows the object as the state machine FpdObj / AttenObj /
+// ChainObj) and compare_fresh with an object parsed ONCE with the same text.
+
+static int g_file_counter = 0;
+static std::vector<std::string> g_files_to_remove;
+
+struct FactorFile
+{
+  shared_ptr<PD> mem;            // what the harness wrote
+  shared_ptr<ProjDataInfo> pdi;  // its geometry
+  std::string name;              // header file name (empty: in memory only)
+};
+
+static FactorFile
+make_factor_file(Runner& R, const shared_ptr<ProjDataInfo>& pdi, bool on_disk)
+{
+  FactorFile f;
+  f.mem = R.random_positive_pd(pdi, 0.25F, 4.F);
+  f.pdi = pdi;
+  if (on_disk)
+    {
+      const std::string base = g_scratch + "_factors" + std::to_string(g_file_counter++);
+      f.mem->write_to_file(base);
+      f.name = base + ".hs";
+      g_files_to_remove.push_back(base + ".hs");
+      g_files_to_remove.push_back(base + ".s");
+    }
+  return f;
+}
+
+static std::string
+fpd_text(const FactorFile& f)
+{
+  return "Bin Normalisation From ProjData:=\n normalisation_projdata_filename := " + f.name + "\nEnd Bin Normalisation From ProjData:=\n";
+}
+
+template <class T>
+static bool
+parse_text(T& obj, const std::string& text)
+{
+  std::istringstream is(text);
+  try
+    {
+      return obj.parse(is);
+    }
+  catch (...)
+    {
+      return false;
+    }
+}
+
+// do undo / apply on related viewgrams of the geometry at hand get past the checks?
+static bool
+usable_now(Runner& R, const BinNormalisation& n)
+{
+  PD dd(R.g.exam, R.g.pdi);
+  dd.fill(1.F);
+  shared_ptr<DataSymmetriesForViewSegmentNumbers> triv(new TrivialDataSymmetriesForBins(R.g.pdi));
+  try
+    {
+      RelatedViewgrams<float> rv = dd.get_related_viewgrams(ViewSegmentNumbers(0, 0), triv, false, 0);
+      n.undo(rv);
+      n.apply(rv);
+    }
+  catch (...)
+    {
+      return false;
+    }
+  return true;
+}
+
+static void
+hist_parse_fpd(vh::Rng& rng, bool thorough)
+{
+  Runner R(rng, thorough);
+  const int N = 4 * rng.range(2, 3);
+  const int Rr = rng.range(2, 3);
+  const int nt = std::max(2, std::min(N / 2 - 1, rng.range(2, 5)));
+  const int max_tof = rng.coin() ? 5 : 9;
+  const int mash = rng.coin() ? max_tof : (max_tof == 9 && rng.coin() ? 3 : 1);
+  shared_ptr<Scanner> sc = vh::make_scanner(N, Rr, max_tof);
+  shared_ptr<ProjDataInfo> nontof = vh::make_pdi(sc, 1, Rr - 1, N / 2, nt, false, 0);
+  shared_ptr<ProjDataInfo> fewer = vh::make_pdi(sc, 1, rng.range(0, Rr - 2), N / 2, nt, false, 0);
+  shared_ptr<ProjDataInfo> tofd = vh::make_pdi(sc, 1, Rr - 1, N / 2, nt, false, mash);
+  std::ostringstream d;
+  d << "N=" << N << " R=" << Rr << " span=1 views=" << N / 2 << " tang=" << nt << " TOF-geometry=" << tofd->get_num_tof_poss()
+    << "-positions(mashing " << mash << " of " << max_tof << ") history=FromProjData(constructors,parse,set_up)";
+  R.set_geometry(sc, nontof, d.str() + " step=files");
+  const FactorFile A = make_factor_file(R, nontof, true), B = make_factor_file(R, nontof, true), C = make_factor_file(R, tofd, true),
+                   M = make_factor_file(R, nontof, false);
+  struct Obj
+  {
+    shared_ptr<BinNormalisationFromProjData> n;
+    std::string hid;
+    const FactorFile* holds; // what the object must hold now
+  };
+  int tab_counter = 0;
+  auto tell_table = [&](const FactorFile& f) {
+    const std::string t = "pf" + std::to_string(tab_counter++);
+    send_table(t, *f.mem);
+    return t + (f.pdi->is_tof_data() ? " 1" : " 0");
+  };
+  auto new_obj = [&](int how, const FactorFile* f) {
+    Obj o;
+    o.hid = "P" + std::to_string(g_hist_counter++);
+    o.holds = f;
+    if (how == 0)
+      {
+        o.n.reset(new BinNormalisationFromProjData);
+        op("hist " + o.hid + " newfpd", "ok");
+      }
+    else
+      {
+        if (how == 1)
+          o.n.reset(new BinNormalisationFromProjData(f->name));
+        else
+          o.n.reset(new BinNormalisationFromProjData(shared_ptr<ProjData>(f->mem)));
+        op("hist " + o.hid + " ctorfpd " + tell_table(*f), "ok");
+      }
+    return o;
+  };
+  auto do_parse = [&](Obj& o, const FactorFile& f) {
+    const bool fine = parse_text(*o.n, fpd_text(f));
+    op("hist " + o.hid + " parse fpd " + tell_table(f), fine ? "ok" : "err");
+    ++g_checks;
+    if (!fine)
+      oracle_fail("BinNormalisationFromProjData::parse failed for a readable factor file");
+    o.holds = &f;
+  };
+  auto ask_usable = [&](Obj& o) { op("hist " + o.hid + " usable", usable_now(R, *o.n) ? "ok" : "err"); };
+  auto step = [&](Obj& o, const shared_ptr<ProjDataInfo>& data, const FactorFile* parse_file, const std::string& what) {
+    std::ostringstream descr;
+    descr << d.str() << " object=" << o.hid << " step=" << what << " data-segments=" << data->get_num_segments()
+          << " data-tof=" << data->get_num_tof_poss();
+    R.set_geometry(sc, data, descr.str());
+    if (parse_file)
+      do_parse(o, *parse_file);
+    const FactorFile& f = *o.holds;
+    const int k = R.add_from_proj_data(f.pdi, "parse-history", f.mem, o.n, o.hid);
+    R.run_case(k);
+    shared_ptr<BinNormalisation> fresh;
+    if (f.name.empty())
+      fresh.reset(new BinNormalisationFromProjData(shared_ptr<ProjData>(f.mem)));
+    else
+      {
+        shared_ptr<BinNormalisationFromProjData> p(new BinNormalisationFromProjData);
+        ++g_checks;
+        if (!parse_text(*p, fpd_text(f)))
+          {
+            oracle_fail("BinNormalisationFromProjData::parse failed for a readable factor file (fresh object)");
+            return;
+          }
+        fresh = p;
+      }
+    R.compare_fresh(k, fresh, what);
+  };
+  {
+    Obj o = new_obj(0, nullptr);
+    step(o, nontof, &A, "1:parse-file-A");
+    step(o, nontof, &B, "2:parse-file-B(other-factors)");
+    step(o, tofd, &C, "3:parse-file-C(TOF-factors)-TOF-data");
+    step(o, tofd, &A, "4:parse-file-A-again(nonTOF-factors)-TOF-data");
+    step(o, fewer, nullptr, "5:set_up-again-for-fewer-segments");
+    // parse without a set_up in between: the object stays set up (parse does not reset the state) and holds the new factors
+    R.set_geometry(sc, fewer, d.str() + " object=" + o.hid + " step=6:parse-B-then-parse-A-without-set_up");
+    do_parse(o, B);
+    ask_usable(o);
+    do_parse(o, A);
+    ask_usable(o);
+    step(o, nontof, &B, "7:parse-file-B-set_up");
+  }
+  {
+    Obj o = new_obj(1, &A);
+    step(o, nontof, nullptr, "1:constructed-from-file-name-A");
+    step(o, nontof, &B, "2:parse-file-B");
+    if (thorough || rng.coin())
+      step(o, tofd, &C, "3:parse-file-C(TOF-factors)-TOF-data");
+  }
+  {
+    Obj o = new_obj(2, &M);
+    step(o, tofd, nullptr, "1:constructed-from-ProjData-object-TOF-data");
+    step(o, nontof, &B, "2:parse-file-B");
+    step(o, nontof, &A, "3:parse-file-A");
+  }
+}
+
+struct ImageFile
+{
+  shared_ptr<VoxelsOnCartesianGrid<float>> mu;
+  std::string file; // header file name (empty: in memory only)
+  std::string name; // the model's name for this image
+};
+
+// projector settings as a parsed text describes them (flags < 0: no projector key, i.e. the class's default projector)
+static std::string
+atten_text(const ImageFile& im, int flags, const std::string& indent = "")
+{
+  std::ostringstream par;
+  par << indent << "Bin Normalisation From Attenuation Image:=\n" << indent << " attenuation_image_filename := " << im.file << "\n";
+  if (flags >= 0)
+    par << indent << " forward projector type := Matrix\n"
+        << indent << "  Forward Projector Using Matrix Parameters :=\n"
+        << indent << "   Matrix type := Ray Tracing\n"
+        << indent << "    Ray Tracing Matrix Parameters :=\n"
+        << indent << "     do_symmetry_90degrees_min_phi := " << ((flags & 1) ? 1 : 0) << "\n"
+        << indent << "     do_symmetry_180degrees_min_phi := " << ((flags & 2) ? 1 : 0) << "\n"
+        << indent << "     do_symmetry_swap_segment := " << ((flags & 4) ? 1 : 0) << "\n"
+        << indent << "    End Ray Tracing Matrix Parameters :=\n"
+        << indent << "  End Forward Projector Using Matrix Parameters :=\n";
+  par << indent << "End Bin Normalisation From Attenuation Image :=\n";
+  return par.str();
+}
+
+static ImageFile
+make_image_file(Runner& R, const ProjDataInfo& pdi, float zoom, int nxy, bool on_disk, bool empty_edge)
+{
+  static int counter = 0;
+  ImageFile im;
+  im.name = "img" + std::to_string(counter++);
+  im.mu = vh::make_image(pdi, zoom, nxy, -1);
+  for (auto it = im.mu->begin_all(); it != im.mu->end_all(); ++it)
+    *it = R.rng.range(0, 5) == 0 ? 0.F : R.rnd(0.02F, 0.45F);
+  if (empty_edge)
+    {
+      // (the expectation for the class's default projector comes from the ray tracing MATRIX: see make_atten)
+      const CartesianCoordinate3D<float> vs = im.mu->get_voxel_size();
+      const double keep = ((nxy - 1) / 2. - 1.) * std::min(vs.x(), vs.y());
+      VoxelsOnCartesianGrid<float>& mu = *im.mu;
+      for (int z = mu.get_min_index(); z <= mu.get_max_index(); ++z)
+        for (int y = mu[z].get_min_index(); y <= mu[z].get_max_index(); ++y)
+          for (int x = mu[z][y].get_min_index(); x <= mu[z][y].get_max_index(); ++x)
+            if (std::sqrt(static_cast<double>(x) * x * vs.x() * vs.x() + static_cast<double>(y) * y * vs.y() * vs.y()) > keep)
+              mu[z][y][x] = 0.F;
+    }
+  if (on_disk)
+    {
+      const std::string base = g_scratch + "_image" + std::to_string(g_file_counter++);
+      write_to_file(base, *im.mu);
+      im.file = base + ".hv";
+      g_files_to_remove.push_back(base + ".hv");
+      g_files_to_remove.push_back(base + ".v");
+      g_files_to_remove.push_back(base + ".ahv");
+    }
+  return im;
+}
+
+// (repaired, fix C13-1: an object parsed again reads the image again and rescales it once; strict)
+static const char* const KEY_ATTEN_REPARSE = "";
+static const char* const TEXT_ATTEN_REPARSE = "";
+
+static void
+hist_parse_atten(vh::Rng& rng, bool thorough)
+{
+  Runner R(rng, thorough);
+  const int tpb = 2;
+  const int N = tpb * 2 * rng.range(2, 4);
+  const int Rr = rng.range(2, 3);
+  const int maxtang = N / 2 - 1;
+  const int nt = std::max(3, std::min(maxtang, rng.range(3, 6)));
+  shared_ptr<Scanner> sc = block_scanner(N, Rr, tpb, 1, -1);
+  shared_ptr<ProjDataInfo> pdi = vh::make_pdi(sc, 1, Rr - 1, N / 2, nt, false, 0);
+  shared_ptr<ProjDataInfo> fewer = vh::make_pdi(sc, 1, rng.range(0, Rr - 2), N / 2, nt, false, 0);
+  std::ostringstream d;
+  d << "nonTOF N=" << N << " R=" << Rr << " span=1 views=" << N / 2 << " tang=" << nt
+    << " history=FromAttenuationImage(constructors,parse,set_up)";
+  R.set_geometry(sc, pdi, d.str() + " step=files");
+  // two images on disk with different sizes, voxel sizes and values, one in memory
+  const int nA = rng.range(6, 8);
+  const ImageFile A = make_image_file(R, *pdi, rng.coin() ? 0.8F : 1.25F, nA, true, true),
+                  B = make_image_file(R, *pdi, rng.coin() ? 1.F : 0.64F, nA + (rng.coin() ? 1 : -1), true, true),
+                  M = make_image_file(R, *pdi, 1.F, rng.range(6, 8), false, true);
+  struct Obj
+  {
+    shared_ptr<BinNormalisationFromAttenuationImage> n;
+    std::string hid;
+    const ImageFile* holds;              // the image the object must hold now
+    std::vector<const ImageFile*> seen;  // every image the object has been offered
+    int flags;                           // projector settings in force (-1: the class's default projector)
+    bool swap_s, shift_z;
+    shared_ptr<ForwardProjectorByBin> fwd; // given to a constructor
+    int post_processings;
+  };
+  auto new_obj = [&](int how, const ImageFile* im, bool with_projector) {
+    Obj o;
+    o.hid = "Q" + std::to_string(g_hist_counter++);
+    o.holds = im;
+    o.flags = -1;
+    o.swap_s = o.shift_z = true;
+    o.post_processings = 0;
+    if (im)
+      o.seen.push_back(im);
+    if (how == 0)
+      {
+        o.n.reset(new BinNormalisationFromAttenuationImage);
+        op("hist " + o.hid + " newatten", "ok");
+        return o;
+      }
+    if (with_projector)
+      {
+        o.flags = rng.range(0, 7);
+        o.swap_s = rng.coin();
+        o.shift_z = rng.coin();
+        o.fwd.reset(new ForwardProjectorByBinUsingProjMatrixByBin(Runner::make_matrix(o.flags, o.swap_s, o.shift_z)));
+      }
+    if (how == 1)
+      o.n.reset(new BinNormalisationFromAttenuationImage(im->file, o.fwd));
+    else
+      o.n.reset(new BinNormalisationFromAttenuationImage(shared_ptr<const DiscretisedDensity<3, float>>(im->mu), o.fwd));
+    o.post_processings = 1;
+    op("hist " + o.hid + " ctoratten " + (how == 1 ? "file " : "image ") + im->name, "ok");
+    return o;
+  };
+  auto do_parse = [&](Obj& o, const ImageFile& im, int flags) {
+    const bool fine = parse_text(*o.n, atten_text(im, flags));
+    op("hist " + o.hid + " parse atten " + im.name, fine ? "ok" : "err");
+    ++g_checks;
+    if (!fine)
+      oracle_fail("BinNormalisationFromAttenuationImage::parse failed for a readable image file");
+    o.holds = &im;
+    o.seen.push_back(&im);
+    ++o.post_processings;
+    if (flags >= 0)
+      {
+        // a projector made by the parser: the settings of the text, everything else at its default
+        o.flags = flags;
+        o.swap_s = o.shift_z = true;
+        o.fwd.reset();
+      }
+  };
+  auto step = [&](Obj& o, const shared_ptr<ProjDataInfo>& data, const ImageFile* parse_image, int parse_flags, const std::string& what) {
+    std::ostringstream descr;
+    descr << d.str() << " object=" << o.hid << " step=" << what << " segments=" << data->get_num_segments();
+    R.set_geometry(sc, data, descr.str());
+    if (parse_image)
+      do_parse(o, *parse_image, parse_flags);
+    const ImageFile& im = *o.holds;
+    Case c;
+    c.kind = std::string("atten:parse-history:") + (o.flags < 0 ? "defaultProjector" : "matrix" + std::to_string(o.flags));
+    c.norm = o.n;
+    if (o.post_processings > 1)
+      {
+        c.known_key = KEY_ATTEN_REPARSE;
+        c.known_text = TEXT_ATTEN_REPARSE;
+      }
+    const int k = R.add(c);
+    // rows of every image the object has been offered, for the projector settings in force (default projector: the rows of the
+    // ray tracing matrix with all symmetries, see make_atten); the expectation `acf` from the image the object must hold
+    const int rf = o.flags < 0 ? 7 : o.flags;
+    std::ostringstream setup;
+    setup << "hist " << o.hid << " setup atten " << data->get_num_tof_poss() << " " << data->get_tof_mash_factor();
+    std::set<std::string> sent;
+    for (const ImageFile* s : o.seen)
+      {
+        if (!sent.insert(s->name).second)
+          continue;
+        const std::string rows = "r" + R.cases[k].id + s->name;
+        R.send_rows(rows, s->mu, rf, o.swap_s, o.shift_z, s == &im ? &R.cases[k].acf : nullptr);
+        setup << " " << s->name << " " << vh::hex(s->mu->get_voxel_size().x()) << " " << rows;
+      }
+    op(setup.str(), "ok");
+    R.cases[k].id = o.hid;
+    {
+      shared_ptr<ProjDataInfo> p = data;
+      shared_ptr<VoxelsOnCartesianGrid<float>> mu = im.mu;
+      if (o.flags < 0)
+        R.atten_sym[k] = [p, mu]() {
+          return shared_ptr<DataSymmetriesForViewSegmentNumbers>(new DataSymmetriesForBins_PET_CartesianGrid(p, mu));
+        };
+      else if (o.fwd)
+        {
+          shared_ptr<ForwardProjectorByBin> fwd = o.fwd;
+          R.atten_sym[k] = [fwd]() { return shared_ptr<DataSymmetriesForViewSegmentNumbers>(fwd->get_symmetries_used()->clone()); };
+        }
+      else
+        {
+          const int f = o.flags;
+          R.atten_sym[k] = [p, mu, f]() {
+            shared_ptr<ProjMatrixByBinUsingRayTracing> pm = Runner::make_matrix(f, true, true);
+            pm->set_up(p, mu);
+            return shared_ptr<DataSymmetriesForViewSegmentNumbers>(pm->get_symmetries_ptr()->clone());
+          };
+        }
+    }
+    R.run_case(k);
+    // a fresh object given the image and the projector settings once
+    shared_ptr<BinNormalisation> fresh;
+    if (im.file.empty() || o.fwd)
+      {
+        shared_ptr<ForwardProjectorByBin> fwd;
+        if (o.flags >= 0)
+          fwd.reset(new ForwardProjectorByBinUsingProjMatrixByBin(Runner::make_matrix(o.flags, o.swap_s, o.shift_z)));
+        if (im.file.empty())
+          fresh.reset(new BinNormalisationFromAttenuationImage(shared_ptr<const DiscretisedDensity<3, float>>(im.mu), fwd));
+        else
+          fresh.reset(new BinNormalisationFromAttenuationImage(im.file, fwd));
+      }
+    else
+      {
+        shared_ptr<BinNormalisationFromAttenuationImage> p(new BinNormalisationFromAttenuationImage);
+        ++g_checks;
+        if (!parse_text(*p, atten_text(im, o.flags)))
+          {
+            oracle_fail("BinNormalisationFromAttenuationImage::parse failed for a readable image file (fresh object)");
+            return;
+          }
+        fresh = p;
+      }
+    R.compare_fresh(k, fresh, what);
+  };
+  {
+    // parsed, then parsed again with another image and another projector
+    Obj o = new_obj(0, nullptr, false);
+    const int f1 = rng.range(0, 7);
+    step(o, pdi, &A, f1, "1:parse-image-A-matrix-projector");
+    step(o, fewer, nullptr, -1, "2:set_up-again-for-fewer-segments");
+    step(o, pdi, &B, (f1 ^ rng.range(1, 7)) & 7, "3:parse-image-B-other-matrix-projector");
+    if (thorough || rng.coin())
+      step(o, pdi, &A, rng.range(0, 7), "4:parse-image-A-again");
+  }
+  {
+    // parsed without a projector key (the class's default projector), then again with another image
+    Obj o = new_obj(0, nullptr, false);
+    step(o, pdi, &B, -1, "1:parse-image-B-default-projector");
+    step(o, pdi, &A, -1, "2:parse-image-A-default-projector");
+  }
+  {
+    // constructed from an image object, then parsed
+    Obj o = new_obj(2, &M, rng.coin());
+    step(o, pdi, nullptr, -1, "1:constructed-from-image-object");
+    step(o, pdi, &A, rng.range(0, 7), "2:parse-image-A-matrix-projector");
+  }
+  if (thorough || rng.coin())
+    {
+      // constructed from a file name, then parsed
+      Obj o = new_obj(1, &A, rng.coin());
+      step(o, pdi, nullptr, -1, "1:constructed-from-file-name-A");
+      step(o, pdi, &B, rng.range(0, 7), "2:parse-image-B-matrix-projector");
+    }
+}
+
+static void
+hist_parse_chain(vh::Rng& rng, bool thorough)
+{
+  Runner R(rng, thorough);
+  const int tpb = 2;
+  const int N = tpb * 2 * rng.range(2, 3);
+  const int Rr = rng.range(2, 3);
+  const int maxtang = N / 2 - 1;
+  const int nt = std::max(3, std::min(maxtang, rng.range(3, 5)));
+  shared_ptr<Scanner> sc = block_scanner(N, Rr, tpb, 1, -1);
+  shared_ptr<ProjDataInfo> pdi = vh::make_pdi(sc, 1, Rr - 1, N / 2, nt, false, 0);
+  std::ostringstream d;
+  d << "nonTOF N=" << N << " R=" << Rr << " span=1 views=" << N / 2 << " tang=" << nt << " history=Chained(constructors,parse,set_up)";
+  R.set_geometry(sc, pdi, d.str() + " step=files");
+  const FactorFile FA = make_factor_file(R, pdi, true), FB = make_factor_file(R, pdi, true), FM = make_factor_file(R, pdi, false);
+  const ImageFile IA = make_image_file(R, *pdi, 0.8F, rng.range(5, 7), true, true),
+                  IB = make_image_file(R, *pdi, 1.25F, rng.range(5, 7), true, true);
+  // a member as a text describes it: kind 0 None (a null pointer: the registry's default entry), 1 From ProjData, 2 From Attenuation Image;
+  // kind -1: nothing said (a null pointer given to the constructor)
+  struct Member
+  {
+    int kind;
+    const FactorFile* factors;
+    const ImageFile* image;
+    int flags; // projector of an attenuation member (-1 default)
+  };
+  auto member_text = [&](const Member& m, const char* key) {
+    std::ostringstream t;
+    t << " " << key << " := ";
+    if (m.kind == 0)
+      t << "None\n";
+    else if (m.kind == 1)
+      t << "From ProjData\n" << fpd_text(*m.factors);
+    else
+      t << "From Attenuation Image\n" << atten_text(*m.image, m.flags, "  ");
+    return t.str();
+  };
+  auto chain_text = [&](const Member& a, const Member& b) {
+    return "Chained Bin Normalisation Parameters:=\n" + member_text(a, "Bin Normalisation to apply first")
+           + member_text(b, "Bin Normalisation to apply second") + "END Chained Bin Normalisation Parameters:=\n";
+  };
+  struct Obj
+  {
+    shared_ptr<ChainedBinNormalisation> n;
+    std::string hid;
+    Member first, second;
+    bool parsed; // made by the default constructor and parsed (a fresh reference is parsed once), or made from member objects
+  };
+  // a fresh member object on its own (from the data the harness holds in memory) and its case; kind -1: a null pointer
+  auto member_object = [&](const Member& m, Runner::AttenObj* keep) -> shared_ptr<BinNormalisation> {
+    if (m.kind <= 0)
+      return shared_ptr<BinNormalisation>();
+    if (m.kind == 1)
+      return shared_ptr<BinNormalisation>(new BinNormalisationFromProjData(shared_ptr<ProjData>(m.factors->mem)));
+    Runner::AttenObj a;
+    a.mu = m.image->mu;
+    a.default_projector = m.flags < 0;
+    a.f = m.flags < 0 ? 7 : m.flags;
+    a.swap_s = a.shift_z = true;
+    Runner::construct_atten(a);
+    if (keep)
+      *keep = a;
+    return a.norm;
+  };
+  auto member_case = [&](const Member& m) {
+    if (m.kind <= 0)
+      return -1;
+    if (m.kind == 1)
+      return R.add_from_proj_data(m.factors->pdi, "member", m.factors->mem);
+    Runner::AttenObj a;
+    member_object(m, &a);
+    return R.add_atten_case(a);
+  };
+  // `pa`,`pb`: the members are replaced now - by parsing a text that describes them (`by_parsing`), or they were given to the
+  // constructor that has just made the object (the model: a new object whose members are replaced, post_processing)
+  auto step = [&](Obj& o, const Member* pa, const Member* pb, bool by_parsing, const std::string& what) {
+    std::ostringstream descr;
+    descr << d.str() << " object=" << o.hid << " step=" << what;
+    R.set_geometry(sc, pdi, descr.str());
+    if (pa)
+      {
+        o.first = *pa;
+        o.second = *pb;
+      }
+    const int ki = member_case(o.first), kj = member_case(o.second);
+    // "-": the text has no such key / the constructor was given a null pointer; "null": the key has the value None
+    auto name_of = [&](int k, const Member& m) { return k < 0 ? std::string(m.kind == 0 ? "null" : "-") : R.cases[k].id; };
+    if (pa)
+      {
+        const bool fine = by_parsing ? parse_text(*o.n, chain_text(o.first, o.second)) : true;
+        auto cal = [&](bool first) {
+          try
+            {
+              return vh::hex((first ? o.n->get_first_norm() : o.n->get_second_norm())->get_calibration_factor());
+            }
+          catch (...)
+            {
+              return std::string("-0x1p+0"); // a null member has none
+            }
+        };
+        op("hist " + o.hid + " parse chain " + name_of(ki, o.first) + " " + name_of(kj, o.second) + " " + cal(true) + " " + cal(false), fine ? "ok" : "err");
+        ++g_checks;
+        if (!fine)
+          {
+            oracle_fail("ChainedBinNormalisation::parse failed for a text with two readable members");
+            return;
+          }
+        // the new members were never set up
+        if (o.first.kind > 0 || o.second.kind > 0)
+          op("hist " + o.hid + " usable", usable_now(R, *o.n) ? "ok" : "err");
+      }
+    Case c;
+    auto kind_of = [&](int k) { return k < 0 ? std::string("null") : R.cases[k].kind; };
+    c.kind = "chain(" + kind_of(ki) + "," + kind_of(kj) + "):parse-history";
+    c.norm = o.n;
+    c.members = { ki, kj };
+    c.is_chain = true;
+    c.routes = R.generic_routes();
+    const int ko = R.add(c);
+    op("hist " + o.hid + " setup chain", "ok");
+    R.cases[ko].id = o.hid;
+    for (int k : { ki, kj })
+      if (k >= 0)
+        R.run_case(k);
+    R.run_case(ko);
+    shared_ptr<ChainedBinNormalisation> fresh;
+    ++g_checks;
+    if (o.parsed)
+      {
+        fresh.reset(new ChainedBinNormalisation);
+        if (!parse_text(*fresh, chain_text(o.first, o.second)))
+          {
+            oracle_fail("ChainedBinNormalisation::parse failed for a text with two readable members (fresh object)");
+            return;
+          }
+      }
+    else
+      fresh.reset(new ChainedBinNormalisation(member_object(o.first, nullptr), member_object(o.second, nullptr)));
+    R.compare_fresh(ko, fresh, what);
+  };
+  const Member null_member{ -1, nullptr, nullptr, -1 }, none{ 0, nullptr, nullptr, -1 }, fa{ 1, &FA, nullptr, -1 },
+      fb{ 1, &FB, nullptr, -1 }, fm{ 1, &FM, nullptr, -1 }, ia{ 2, nullptr, &IA, rng.range(0, 7) }, ib{ 2, nullptr, &IB, -1 },
+      ia2{ 2, nullptr, &IA, rng.range(0, 7) };
+  {
+    Obj o;
+    o.hid = "K" + std::to_string(g_hist_counter++);
+    o.n.reset(new ChainedBinNormalisation);
+    o.parsed = true;
+    op("hist " + o.hid + " newchain", "ok");
+    step(o, &fa, &ia, true, "1:parse(FromProjData-A,Attenuation-A)");
+    step(o, &ib, &fb, true, "2:parse(Attenuation-B,FromProjData-B)");
+    step(o, nullptr, nullptr, true, "3:set_up-again");
+    step(o, &none, &fa, true, "4:parse(None,FromProjData-A)");
+    step(o, &ia, &none, true, "4b:parse(Attenuation-A,None)");
+    step(o, &fb, &ia2, true, "5:parse(FromProjData-B,Attenuation-A)");
+  }
+  {
+    // constructed from member objects (the second one null), then parsed
+    Obj o;
+    o.hid = "K" + std::to_string(g_hist_counter++);
+    o.n.reset(new ChainedBinNormalisation(member_object(fm, nullptr), shared_ptr<BinNormalisation>()));
+    o.parsed = false;
+    op("hist " + o.hid + " newchain", "ok");
+    step(o, &fm, &null_member, false, "1:constructed(FromProjData-object,null)");
+    o.parsed = true;
+    step(o, rng.coin() ? &ia : &ib, &fa, true, "2:parse(Attenuation,FromProjData-A)");
+  }
+}
+
 int
 main(int argc, char** argv)
 {
@@ -2626,43 +3374,87 @@ main(int argc, char** argv)
             op("chainctor " + vh::hex(cf) + " " + vh::hex(R.cases[tab].norm->get_calibration_factor()), threw2 ? "err" : "ok");
           }
         }
-      // ------------------------------------------------------------------ C/E: TOF data (5 positions mash 1, or 9 mashed by 3)
-      for (int variant = 0; variant < 2; ++variant)
+      // ------------------------------------------------------------------ C/E: TOF data, mashing factor 1 / a proper divisor of the
+      // maximum number of TOF bins of the scanner / the maximum itself (ONE TOF bin: TOF data all the same, is_tof_data() is true)
+      {
+        struct TofVariant
         {
-          Runner R(rng, thorough);
-          const int N = 4 * rng.range(2, thorough ? 5 : 3);
-          const int Rr = rng.range(1, 3);
-          const int nt = std::max(2, std::min(N / 2 - 1, rng.range(2, 5)));
-          const int max_tof = variant == 0 ? 5 : 9, mash = variant == 0 ? 1 : 3;
-          shared_ptr<Scanner> sc = vh::make_scanner(N, Rr, max_tof);
-          shared_ptr<ProjDataInfo> pdi = vh::make_pdi(sc, 1, Rr - 1, N / 2, nt, false, mash);
-          std::ostringstream d;
-          d << "TOF" << pdi->get_num_tof_poss() << " N=" << N << " R=" << Rr << " span=1 views=" << N / 2 << " tang=" << nt;
-          R.set_geometry(sc, pdi, d.str());
-          shared_ptr<ProjDataInfo> nontof(pdi->create_non_tof_clone());
-          const int t = R.add_trivial();
-          const int tab = R.add_table(false);
-          const int tab0 = R.add_table(true);
-          const int cal = R.add_calib();
-          const int f0 = R.add_from_proj_data(nontof, "nonTOF-factors");
-          const int f1 = R.add_from_proj_data(pdi, "TOF-factors");
-          R.add_chain(f0, tab);
-          R.add_chain(R.add_chain(f1, cal), f0);
-          R.add_chain(t, R.add_chain(tab0, f1));
-          for (std::size_t k = 0; k < R.cases.size(); ++k)
-            R.run_case(static_cast<int>(k));
-          // set_up decisions
-          atten_setup_case(R); // TOF data: refused
-          comp_setup_case(R);  // TOF data: refused
-          fpd_setup_case(R, nontof, true, true);
-          fpd_setup_case(R, pdi, true, true);
-          {
-            shared_ptr<ProjDataInfo> other = vh::make_pdi(sc, 1, Rr - 1, N / 2, nt + 1 <= N / 2 - 1 ? nt + 1 : nt - 1, false, 0);
-            fpd_setup_case(R, other, true, false); // different tangential size
-            if (nt - 1 >= 1)
-              fpd_setup_case(R, vh::make_pdi(sc, 1, Rr - 1, N / 2, nt - 1, false, 0), true, false); // smaller tangential size
-          }
+          int max_tof, mash;
+        };
+        std::vector<TofVariant> variants = { { 5, 1 }, { 9, 3 } };
+        {
+          static const int maxes[] = { 5, 9, 15 };
+          const int m = maxes[rng.range(0, 2)];
+          variants.push_back(TofVariant{ m, m }); // a single TOF bin
+          if (thorough)
+            {
+              const int m2 = maxes[rng.range(0, 2)];
+              variants.push_back(TofVariant{ m2, m2 });
+              variants.push_back(TofVariant{ 15, rng.coin() ? 3 : 5 });
+              variants.push_back(TofVariant{ rng.coin() ? 9 : 15, 1 });
+            }
         }
+        for (const TofVariant& tv : variants)
+          {
+            Runner R(rng, thorough);
+            const int N = 4 * rng.range(2, thorough ? 5 : 3);
+            const int Rr = rng.range(1, 3);
+            const int nt = std::max(2, std::min(N / 2 - 1, rng.range(2, 5)));
+            const int max_tof = tv.max_tof, mash = tv.mash;
+            shared_ptr<Scanner> sc = vh::make_scanner(N, Rr, max_tof);
+            shared_ptr<ProjDataInfo> pdi = vh::make_pdi(sc, 1, Rr - 1, N / 2, nt, false, mash);
+            std::ostringstream d;
+            d << "TOF" << pdi->get_num_tof_poss() << " (max " << max_tof << " TOF bins, mashing factor " << mash << ") N=" << N << " R=" << Rr
+              << " span=1 views=" << N / 2 << " tang=" << nt;
+            R.set_geometry(sc, pdi, d.str());
+            shared_ptr<ProjDataInfo> nontof(pdi->create_non_tof_clone());
+            const int t = R.add_trivial();
+            const int tab = R.add_table(false);
+            const int tab0 = R.add_table(true);
+            const int cal = R.add_calib();
+            const int f0 = R.add_from_proj_data(nontof, "nonTOF-factors");
+            const int f1 = R.add_from_proj_data(pdi, "TOF-factors");
+            R.add_chain(f0, tab);
+            R.add_chain(R.add_chain(f1, cal), f0);
+            R.add_chain(t, R.add_chain(tab0, f1));
+            for (std::size_t k = 0; k < R.cases.size(); ++k)
+              R.run_case(static_cast<int>(k));
+            // set_up decisions
+            atten_setup_case(R); // TOF data with more than one TOF position: refused
+            comp_setup_case(R);  // TOF data: refused
+            fpd_setup_case(R, nontof, true, true);
+            fpd_setup_case(R, pdi, true, true);
+            {
+              shared_ptr<ProjDataInfo> other = vh::make_pdi(sc, 1, Rr - 1, N / 2, nt + 1 <= N / 2 - 1 ? nt + 1 : nt - 1, false, 0);
+              fpd_setup_case(R, other, true, false); // different tangential size
+              if (nt - 1 >= 1)
+                fpd_setup_case(R, vh::make_pdi(sc, 1, Rr - 1, N / 2, nt - 1, false, 0), true, false); // smaller tangential size
+              // TOF factors with another TOF mashing factor than the data (also: one TOF bin against several), TOF factors for
+              // non-TOF data: the TOF positions of factors and data do not correspond
+              for (int other_mash = 1; other_mash <= max_tof; ++other_mash)
+                if (other_mash != mash && max_tof % other_mash == 0 && (max_tof / other_mash) % 2 == 1)
+                  fpd_setup_case(R, vh::make_pdi(sc, 1, Rr - 1, N / 2, nt, false, other_mash), true, false);
+              Runner Rn(rng, thorough);
+              Rn.set_geometry(sc, nontof, d.str() + " data=nonTOF-clone");
+              fpd_setup_case(Rn, pdi, true, false);
+              fpd_setup_case(Rn, nontof, true, true);
+              atten_setup_case(Rn);
+            }
+            // non-TOF factors with more segments than the TOF data
+            if (Rr >= 2)
+              {
+                Runner Rs(rng, thorough);
+                shared_ptr<ProjDataInfo> fewer = vh::make_pdi(sc, 1, rng.range(0, Rr - 2), N / 2, nt, false, mash);
+                Rs.set_geometry(sc, fewer, d.str() + " data-segments=" + std::to_string(fewer->get_num_segments()));
+                const int g0 = Rs.add_from_proj_data(nontof, "nonTOF-factors-more-segments");
+                Rs.add_chain(g0, Rs.add_from_proj_data(pdi, "TOF-factors-more-segments"));
+                for (std::size_t k = 0; k < Rs.cases.size(); ++k)
+                  Rs.run_case(static_cast<int>(k));
+                fpd_setup_case(Rs, nontof, true, true);
+                fpd_setup_case(Rs, pdi, true, true);
+              }
+          }
+      }
       // ------------------------------------------------------------------ D: non-TOF, span 3, view mashing; F: factors with more segments
       {
         Runner R(rng, thorough);
@@ -2982,7 +3774,13 @@ main(int argc, char** argv)
       hist_chain(rng, thorough);
       // ------------------------------------------------------------------ J: non-square voxels, analytic chord lengths
       atten_analytic(rng, thorough, round);
+      // ------------------------------------------------------------------ K: one object through constructors, parse and set_up
+      hist_parse_fpd(rng, thorough);
+      hist_parse_atten(rng, thorough);
+      hist_parse_chain(rng, thorough);
     }
+  for (const std::string& f : g_files_to_remove)
+    std::remove(f.c_str());
 
   std::fprintf(g_orc, "ORACLE-DONE checks=%ld fails=%ld\n", g_checks, g_fails);
   std::fclose(g_ops);
